@@ -45,8 +45,19 @@ def existence():
             if name.startswith("ecb_set_palette_"):
                 cands = ["ecb_set_palette_rgb", "ecb_set_palette_cmp"]
             elif name in ("ecb_{}circle", "ecb_{}arc"):
-                # hires flag: only the H forms exist in the grammar (HCIRCLE); the non-hires names are never emitted
+                # hires flag: the H forms exist in the library; the non-hires names do not - they must be unreachable, i.e. nothing
+                # outside the class definitions passes a `hires` argument (the default is True) - checked, not assumed
                 cands = ["ecb_hcircle"] if "circle" in name else ["ecb_harc"]
+                passing = []
+                for path in sorted(glob.glob(os.path.join(B09DIR, "*.py"))):
+                    for node in ast.walk(ast.parse(open(path).read())):
+                        if isinstance(node, ast.Call):
+                            for kw in node.keywords:
+                                if kw.arg == "hires" and not (isinstance(kw.value, ast.Constant) and kw.value.value is True):
+                                    passing.append("%s:%d hires=%s" % (os.path.basename(path), node.lineno, ast.unparse(kw.value)))
+                if passing:
+                    cands = cands + [c.replace("ecb_h", "ecb_") for c in cands]
+                    sites = sites + passing
             else:
                 out.append(ob("exists/%s" % name, False, "a call template whose instances are known to the sidecar", "unknown computed procedure name at %s" % sites))
                 continue
